@@ -92,6 +92,9 @@ CHECKS = {
  "C23": dict(cat="exploration", tech="Hypothesis token-level mutation fuzzing of corpus and generated scripts + random text + nesting bombs + Hypothesis stateful (rule-based) parse/prettify histories; oracle = outcome class, error-location bounds, first-parse agreement",
    text="create_ast on mutated, random and deeply nested texts returns an AST or raises a VTL error, a syntax error's line/column lie inside the input, and in histories of up to 20 parse / prettify calls over valid and broken texts every text parses to the same AST / error and prettifies to the same text as the first time.",
    note="TRUSTED BASE: the parse tree and raw error record come from the parser stand-in (ANTLR Java interpreter over the repository's shipped ATN); crashes, hangs or memory errors inside the native extension (bindings.cpp) are not observable here - only the Python half (create_ast, AST construction, comments, error-location arithmetic, cross-parse state) is decided. Known finding: RecursionError beyond a few hundred nesting levels.", ref="§3 C23, §4"),
+ "C31": dict(cat="exploration", tech="differential fuzzing: every text parsed by the same ANTLR interpreter in SLL and in LL prediction mode over the repository's shipped ATN; corpus + Hypothesis-generated scripts + token-level mutations + random text; complete outputs compared",
+   text="For all corpus scripts, generated scripts of five grammars plus hand-written sentences for rare rules, their token mutations and random token soup: accept/reject, the whole parse tree (rules, alternatives, tokens, error nodes), the first error position and message, and the comments are identical in both prediction modes; profiling counters show which cases exercised ambiguous / multi-token decisions.",
+   note="TRUSTED BASE: ANTLR 4.11.1 Java runtime over the ATN embedded in the repository's generated C++ parser, not the C++ runtime's SLL implementation and not do_parse itself (bindings.cpp cannot be compiled here). Sentences are not an exhaustive ATN walk; rules never exercised are listed in the evidence. No seeded mutants: the grammar cannot be regenerated offline.", ref="§3 C31, §4"),
 }
 NOT_YET = "check not built yet in this session (work in progress, see DESIGN.md §5)"
 
